@@ -31,6 +31,10 @@ type errFlow struct {
 	active map[ssa.Value]bool
 	glob   map[*ssa.Global][]origin
 	res    map[resKey][]origin
+	// ctx: while the result of a callee that takes an error is evaluated for
+	// one call site, its error parameters stand for the arguments of that
+	// call (and not for the union over all call sites)
+	ctx []map[*ssa.Parameter][]origin
 }
 
 func (c *Ctx) errflow() *errFlow {
@@ -293,6 +297,11 @@ func (ef *errFlow) compute(v ssa.Value) []origin {
 			return out
 		}
 	case *ssa.Parameter:
+		if n := len(ef.ctx); n > 0 {
+			if o, ok := ef.ctx[n-1][x]; ok {
+				return o
+			}
+		}
 		// union over the package's own call sites
 		var out []origin
 		fn := x.Parent()
@@ -458,6 +467,24 @@ func (ef *errFlow) ofCall(v ssa.Value, idx int) []origin {
 	if len(callee.Blocks) == 0 || load.TopLevel(callee).Pkg != c.P.Root {
 		return one("external:"+stdName(callee), site, "result of "+stdName(callee))
 	}
+	// a callee that is handed an error: judged for this call's arguments
+	if len(ef.ctx) < 3 {
+		bind := map[*ssa.Parameter][]origin{}
+		for i, pr := range callee.Params {
+			if i < len(cc.Args) && types.Identical(pr.Type(), types.Universe.Lookup("error").Type()) {
+				bind[pr] = ef.of(cc.Args[i])
+			}
+		}
+		if len(bind) > 0 {
+			memo, active, res := ef.memo, ef.active, ef.res
+			ef.memo, ef.active, ef.res = map[ssa.Value][]origin{}, map[ssa.Value]bool{}, nil
+			ef.ctx = append(ef.ctx, bind)
+			out := ef.resultOrigins(callee, idx)
+			ef.ctx = ef.ctx[:len(ef.ctx)-1]
+			ef.memo, ef.active, ef.res = memo, active, res
+			return out
+		}
+	}
 	return ef.resultOrigins(callee, idx)
 }
 
@@ -525,4 +552,25 @@ func (ef *errFlow) returnOrigins(fn *ssa.Function) []origin {
 		return nil
 	}
 	return ef.resultOrigins(fn, idx)
+}
+
+// ofOn evaluates v as it is on path p: the error parameters of the helpers
+// expanded in place on p stand for the arguments they were called with.
+func (ef *errFlow) ofOn(p *pathx.Path, v ssa.Value) []origin {
+	bind := map[*ssa.Parameter][]origin{}
+	for k, arg := range pathBindings(p) {
+		if pr, ok := k.(*ssa.Parameter); ok && types.Identical(pr.Type(), types.Universe.Lookup("error").Type()) {
+			bind[pr] = ef.of(arg)
+		}
+	}
+	if len(bind) == 0 {
+		return ef.of(v)
+	}
+	memo, active, res := ef.memo, ef.active, ef.res
+	ef.memo, ef.active, ef.res = map[ssa.Value][]origin{}, map[ssa.Value]bool{}, nil
+	ef.ctx = append(ef.ctx, bind)
+	out := ef.of(v)
+	ef.ctx = ef.ctx[:len(ef.ctx)-1]
+	ef.memo, ef.active, ef.res = memo, active, res
+	return out
 }
